@@ -266,3 +266,14 @@ def qdrv_check(paths, workdir_, jobs=16, timeout=1500):
                 res[ln.split()[0]] = dict(x.split('=', 1) for x in ln.split()[1:] if '=' in x)
         os.remove(lst)
     return res
+
+
+def distinct_nontrivial(texts, needs=('W ',)):
+    """number of DISTINCT case texts (image paths and case ids removed) that contain at least one line starting with
+    one of `needs` (by default: at least one write)"""
+    seen = set()
+    for t in texts:
+        body = '\n'.join(l for l in t.split('\n') if not l.startswith(('case ', 'image file', 'image hex', 'breq ', 'bhist ')))
+        if any(l.startswith(needs) for l in body.split('\n')):
+            seen.add(hashlib.sha1(body.encode()).hexdigest())
+    return len(seen)
